@@ -119,7 +119,8 @@ StepViol(ev) ==
          ELSE IF s1.ctl.e = "wrongtype" THEN {}
          ELSE IF ev.ek # ErrName(s1.ctl.e) THEN bad("vm-wrong-error-kind", <<ev.op, s1.ctl.e, ev.ek>>) ELSE {})
      ELSE
-        (IF ev.st = "err" THEN bad("vm-spurious-error", <<ev.op, ev.ek>>) ELSE {})
+        \* (an error is only spurious when the model decided the whole step: an uninterpreted operation may fail)
+        (IF ev.st = "err" /\ s1.eff = <<>> /\ s1.open = 0 THEN bad("vm-spurious-error", <<ev.op, ev.ek>>) ELSE {})
         \cup (IF ev.st # "err" /\ s1.len # ev.d1 THEN bad("vm-stack-depth", <<ev.op, s1.len, ev.d1>>) ELSE {})
         \cup (IF ev.st # "err" /\ ev.b1 # ev.b0 THEN bad("vm-frame-base", <<ev.op>>) ELSE {})
         \cup (IF ev.st = "err" THEN {}
